@@ -61,6 +61,15 @@ func (b *box) Read(p []byte) (n int, err error) {
 	if len(p) > b.remain {
 		p = p[:b.remain]
 	}
+	// A box that overstates its size must not read past the boxes around it.
+	for outer := b.outer; outer != nil; outer = outer.outer {
+		if len(p) > outer.remain {
+			p = p[:outer.remain]
+		}
+	}
+	if len(p) == 0 {
+		return 0, io.EOF
+	}
 	n, err = b.reader.br.Read(p)
 	b.adjust(n)
 	b.reader.offset += n
